@@ -98,6 +98,14 @@ type H struct {
 	buf    []opLine
 	// counters
 	runs, probes, retries int
+	replayMgr             *rmgr
+	notes                 map[string]string
+}
+
+type rmgr struct {
+	am   *auth.AuthManager
+	path string
+	ttl  int64
 }
 
 func (h *H) op(op, out string) { h.buf = append(h.buf, opLine{op, out}) }
@@ -147,6 +155,7 @@ type caseSpec struct {
 	legacy   bool   // row stored with token_prefix = '__legacy__'
 	pbk      bool   // pbkdf2 (iter 1) instead of legacy sha256 hash
 	expiry   int64  // 0 = none, else offset (ns) from the case's time origin
+	newExp   int64  // kind "setexp": the expires_at the update writes (offset ns)
 	ticks    []int64
 	m        *mgr
 }
@@ -358,6 +367,12 @@ func (h *H) runForced(cs caseSpec, prefix []int, rnd *vh.Rand, tickP int) runOut
 		mt.t = verifsched.Spawn("m", func() { mt.err = am.RevokeToken(ctx, id) })
 	case cs.kind == "delete":
 		mt.t = verifsched.Spawn("m", func() { mt.err = am.DeleteToken(ctx, id) })
+	case cs.kind == "setexp" && !cs.cluster:
+		nt := time.Unix(0, base+cs.newExp)
+		mt.t = verifsched.Spawn("m", func() { mt.err = am.UpdateToken(ctx, id, nil, nil, nil, &nt) })
+	case cs.kind == "setexp": // cluster: what the FSM applies after merging the changed field into its entry
+		ue := auth.ClusterTokenEntry{ID: id, Name: ent.Name, Permissions: ent.Permissions, ExpiresAtUnixNano: base + cs.newExp}
+		mt.t = verifsched.Spawn("m", func() { mt.err = am.ApplyUpdateToken(ue) })
 	case cs.kind == "rotate" && (cs.slowPath || !cs.cluster):
 		mt.t = verifsched.Spawn("m", func() { rotated, mt.err = am.RotateToken(ctx, id) })
 	default: // cluster rotate as the FSM applies it, with a harness-chosen new value
@@ -375,6 +390,8 @@ func (h *H) runForced(cs caseSpec, prefix []int, rnd *vh.Rand, tickP int) runOut
 	}
 	if cs.kind == "rotate" {
 		h.op(fmt.Sprintf("mspawn rotate %d 2", cl), "ok")
+	} else if cs.kind == "setexp" {
+		h.op(fmt.Sprintf("mspawn setexp %d %d", cl, cs.newExp), "ok")
 	} else {
 		h.op(fmt.Sprintf("mspawn %s %d", cs.kind, cl), "ok")
 	}
@@ -531,7 +548,18 @@ func (h *H) runForced(cs caseSpec, prefix []int, rnd *vh.Rand, tickP int) runOut
 	}
 	h.runs++
 	// ---- monitors (the property statement, on the real outcomes)
-	if mt.err == nil {
+	if mt.err == nil && cs.kind == "setexp" {
+		// the "has not expired" clause after an expiry update: once UpdateToken returned, a verification that
+		// starts past the NEW expires_at must be rejected
+		if lateOld && now > cs.newExp {
+			h.c.Fail("expired-token-accepted:expiry-update-not-invalidated", fmt.Sprintf("%s set expires_at=%dns and returned; VerifyToken at t=%dns still authenticated", cs.name(), cs.newExp, now), h.replay())
+		}
+		for _, th := range ths[:n] {
+			if th.val == 1 && th.startedAfterMDone && th.res != nil && th.startNow > cs.newExp {
+				h.c.Fail("expired-token-accepted:expiry-update-not-invalidated", fmt.Sprintf("v%d started at t=%dns after %s had set expires_at=%dns and returned, and authenticated", th.idx, th.startNow, cs.name(), cs.newExp), h.replay())
+			}
+		}
+	} else if mt.err == nil {
 		if lateOld {
 			h.c.Fail("stale-auth-after-"+cs.name(), fmt.Sprintf("%s returned, then VerifyToken(old value) still authenticated", cs.name()), h.replay())
 		}
@@ -548,7 +576,7 @@ func (h *H) runForced(cs caseSpec, prefix []int, rnd *vh.Rand, tickP int) runOut
 		if th.val == 3 || th.val == 4 || (th.val == 2 && cs.kind != "rotate") {
 			h.c.Fail("never-issued-value-authenticated", fmt.Sprintf("v%d authenticated a value that was never issued", th.idx), h.replay())
 		}
-		if cs.expiry != 0 && th.startNow > cs.expiry {
+		if cs.expiry != 0 && cs.kind != "setexp" && th.startNow > cs.expiry {
 			h.c.Fail("expired-token-authenticates:cache-hit", fmt.Sprintf("v%d started at t=%dns, after the token's expires_at=%dns, and authenticated", th.idx, th.startNow, cs.expiry), h.replay())
 		}
 	}
@@ -632,6 +660,8 @@ func (h *H) seqCase(m *mgr, script []string) {
 	h.op(fmt.Sprintf("new %d %d", m.ttl, m.max), "ok")
 	r := h.r
 	var id int64
+	var curName string
+	expiryUpdated := false
 	cur := 0 // value currently stored (0 = no row)
 	enabled := false
 	var expiry int64
@@ -650,11 +680,13 @@ func (h *H) seqCase(m *mgr, script []string) {
 		cur = nextVal
 		strs[cur] = h.tokStr(cur)
 		expiry = 0
+		expiryUpdated = false
 		if r.Chance(60) {
 			expiry = now + vh.Pick(r, []int64{1, sec, 10 * sec, m.ttl - sec, m.ttl, m.ttl + sec, 3 * m.ttl})
 		}
 		h.nextID++
 		id = h.nextID
+		curName = fmt.Sprintf("t%d", id)
 		legacy := r.Chance(20)
 		lg := 0
 		if legacy {
@@ -752,11 +784,13 @@ func (h *H) seqCase(m *mgr, script []string) {
 					h.c.Fail("never-issued-or-replaced-value-authenticated", fmt.Sprintf("value %d authenticated but the stored token value is %d", val, cur), h.replay())
 				case !enabled:
 					h.c.Fail("disabled-token-authenticated", "a revoked token authenticated", h.replay())
+				case expiry != 0 && now > expiry && expiryUpdated:
+					h.c.Fail("expired-token-accepted:expiry-update-not-invalidated", fmt.Sprintf("VerifyToken at t=%dns authenticated a token whose expires_at had been updated to %dns (update returned earlier)", now, expiry), h.replay())
 				case expiry != 0 && now > expiry:
 					h.c.Fail("expired-token-authenticates:cache-hit", fmt.Sprintf("VerifyToken at t=%dns authenticated a token whose expires_at=%dns had passed (cached entry, cache TTL %dns)", now, expiry, m.ttl), h.replay())
 				}
 			}
-		case "revoke", "delete", "rotate":
+		case "revoke", "delete", "rotate", "setexp":
 			if id == 0 {
 				continue
 			}
@@ -779,7 +813,33 @@ func (h *H) seqCase(m *mgr, script []string) {
 			var err error
 			var t *verifsched.Thread
 			tid := id
+			var newExp int64
 			switch a {
+			case "setexp":
+				// UpdateToken / ApplyUpdateToken touching only expires_at: shorten to just ahead, to the past,
+				// extend, or (cluster apply only: 0 = NULL) clear
+				newExp = vh.Pick(r, []int64{now + 1, now + 10*sec, now + m.ttl + sec, now - 5*sec, now / 2})
+				if newExp < 1 {
+					newExp = 1
+				}
+				if cluster && r.Chance(15) {
+					newExp = 0
+				}
+				es := "-"
+				if newExp != 0 {
+					es = fmt.Sprint(newExp)
+				}
+				h.op(fmt.Sprintf("mspawn setexp %d %s", cl, es), "ok")
+				if cluster {
+					ue := auth.ClusterTokenEntry{ID: tid, Name: curName, Permissions: "read"}
+					if newExp != 0 {
+						ue.ExpiresAtUnixNano = base + newExp
+					}
+					t = verifsched.Spawn("m", func() { err = am.ApplyUpdateToken(ue) })
+				} else {
+					nt := time.Unix(0, base+newExp)
+					t = verifsched.Spawn("m", func() { err = am.UpdateToken(ctx, tid, nil, nil, nil, &nt) })
+				}
 			case "revoke":
 				h.op(fmt.Sprintf("mspawn revoke %d", cl), "ok")
 				t = verifsched.Spawn("m", func() { err = am.RevokeToken(ctx, tid) })
@@ -825,6 +885,9 @@ func (h *H) seqCase(m *mgr, script []string) {
 			h.c.Tag("seq:" + a)
 			if err == nil && cur != 0 {
 				switch a {
+				case "setexp":
+					expiry = newExp
+					expiryUpdated = true
 				case "revoke":
 					enabled = false
 				case "delete":
@@ -896,6 +959,248 @@ func (h *H) corpusExpiry(m *mgr, viaCreate bool) {
 	h.c.Case(c, true)
 }
 
+
+// loneMutator runs f on a controlled thread with nothing else running, recording its two steps.
+func (h *H) loneMutator(am *auth.AuthManager, f func() error) bool {
+	var err error
+	t := verifsched.Spawn("m", func() { err = f() })
+	mth := &thr{t: t, isM: true}
+	for !t.Done() {
+		p, st := h.step(am, mth)
+		if st != stArrived {
+			var ok bool
+			if p, ok = mth.await(60 * time.Second); !ok {
+				panic("C21 harness: lone mutator did not proceed")
+			}
+		}
+		if p == "done" {
+			if err == nil {
+				p = "done:ok"
+			} else {
+				p = "done:err"
+			}
+		}
+		h.op("m", fmt.Sprintf("%s len=%d", p, am.VerifCacheLen()))
+	}
+	return err == nil
+}
+
+// corpusExpiryUpdate: warm cache, then an expiry-ONLY UpdateToken / ApplyUpdateToken shortening expires_at
+// to t=5s, clock to t=10s, authenticate again: must be rejected (the update has to flush the cache, the
+// cached entry still carries the old expires_at).
+func (h *H) corpusExpiryUpdate(m *mgr, cluster bool) {
+	h.serial++
+	h.buf = h.buf[:0]
+	am := m.am
+	am.SetRaftProposer(nil)
+	verifclock.Set(base)
+	h.op(fmt.Sprintf("new %d %d", m.ttl, m.max), "ok")
+	tok := h.tokStr(1)
+	h.nextID++
+	id := h.nextID
+	name := fmt.Sprintf("t%d", id)
+	if err := am.ApplyCreateToken(auth.ClusterTokenEntry{ID: id, Name: name, Permissions: "read", TokenHash: shaHex(tok),
+		TokenPrefix: auth.VerifTokenPrefix(tok), CreatedAtUnixNano: base, Enabled: true}); err != nil {
+		panic(err)
+	}
+	h.op("row 1 0 1 -", "ok")
+	now := int64(0)
+	verify := func() bool {
+		res := am.VerifyToken(tok)
+		o := "nil"
+		if res != nil {
+			o = "ok"
+		}
+		h.op("seq 1", fmt.Sprintf("%s len=%d", o, am.VerifCacheLen()))
+		return res != nil
+	}
+	verify()
+	exp := 5 * sec
+	cl := 0
+	if cluster {
+		cl = 1
+	}
+	h.op(fmt.Sprintf("mspawn setexp %d %d", cl, exp), "ok")
+	if cluster {
+		h.loneMutator(am, func() error {
+			return am.ApplyUpdateToken(auth.ClusterTokenEntry{ID: id, Name: name, Permissions: "read", ExpiresAtUnixNano: base + exp})
+		})
+	} else {
+		nt := time.Unix(0, base+exp)
+		h.loneMutator(am, func() error { return am.UpdateToken(context.Background(), id, nil, nil, nil, &nt) })
+	}
+	now = 10 * sec
+	verifclock.Set(base + now)
+	h.op(fmt.Sprintf("tick %d", now), fmt.Sprintf("now=%d", now))
+	if verify() {
+		h.c.Fail("expired-token-accepted:expiry-update-not-invalidated", fmt.Sprintf("expires_at was updated to %dns and the update returned; VerifyToken at t=%dns still authenticated (cached entry)", exp, now), h.replay())
+	}
+	h.c.Tag("corpus:expiry-update")
+	h.cleanup(am)
+	h.c.Case(h.flush(), true)
+}
+
+// ---------------------------------------------------------------- cluster-apply log replay (node restart)
+
+type logEnt struct {
+	kind string // create | revoke | delete | rotate | setexp
+	val  int    // create: value; rotate: new value
+	exp  int64  // create / setexp: expires_at offset (0 = none / cleared)
+	leg  bool
+}
+
+func (e logEnt) op() string {
+	es := "-"
+	if e.exp != 0 {
+		es = fmt.Sprint(e.exp)
+	}
+	switch e.kind {
+	case "create":
+		lg := 0
+		if e.leg {
+			lg = 1
+		}
+		return fmt.Sprintf("rcreate %d %d %s", e.val, lg, es)
+	case "rotate":
+		return fmt.Sprintf("rmut rotate %d", e.val)
+	case "setexp":
+		return "rmut setexp " + es
+	}
+	return "rmut " + e.kind
+}
+
+// replayCase: a cluster-apply history on a persistent SQLite file: the log L (create, then mutations) is
+// applied through the Apply*Token callbacks with probes in between; then the node RESTARTS (the
+// AuthManager is closed and re-opened on the same file) and a prefix of L is re-applied from index 0, as
+// the Raft FSM does when it replays its log; after every re-applied entry every token value is probed.
+func (h *H) replayCase(log []logEnt, now int64, prefix int) {
+	h.serial++
+	h.buf = h.buf[:0]
+	am := h.replayMgr.am
+	verifclock.Set(base + now)
+	h.op("rnew", "ok")
+	h.nextID++
+	id := h.nextID
+	name := fmt.Sprintf("t%d", id)
+	toks := map[int]string{}
+	tok := func(v int) string {
+		if _, ok := toks[v]; !ok {
+			toks[v] = h.tokStr(v)
+		}
+		return toks[v]
+	}
+	vals := []int{3}
+	for _, e := range log {
+		if e.kind == "create" || e.kind == "rotate" {
+			vals = append(vals, e.val)
+		}
+	}
+	apply := func(e logEnt) {
+		var err error
+		switch e.kind {
+		case "create":
+			ent := auth.ClusterTokenEntry{ID: id, Name: name, Permissions: "read", TokenHash: shaHex(tok(e.val)), TokenPrefix: auth.VerifTokenPrefix(tok(e.val)),
+				CreatedAtUnixNano: base, Enabled: true}
+			if e.leg {
+				ent.TokenPrefix = "__legacy__"
+			}
+			if e.exp != 0 {
+				ent.ExpiresAtUnixNano = base + e.exp
+			}
+			err = am.ApplyCreateToken(ent)
+		case "revoke":
+			err = am.ApplyRevokeToken(id)
+		case "delete":
+			err = am.ApplyDeleteToken(id)
+		case "rotate":
+			err = am.ApplyRotateToken(id, shaHex(tok(e.val)), auth.VerifTokenPrefix(tok(e.val)))
+		case "setexp":
+			ue := auth.ClusterTokenEntry{ID: id, Name: name, Permissions: "read"}
+			if e.exp != 0 {
+				ue.ExpiresAtUnixNano = base + e.exp
+			}
+			err = am.ApplyUpdateToken(ue)
+		}
+		o := "ok"
+		if err != nil {
+			o = "err"
+		}
+		h.op(e.op(), o)
+	}
+	probe := func(v int) bool {
+		am.InvalidateCache()
+		res := am.VerifyToken(tok(v))
+		o := "nil"
+		if res != nil {
+			o = "ok"
+		}
+		h.op(fmt.Sprintf("rprobe %d %d", v, now), o)
+		return res != nil
+	}
+	for _, e := range log {
+		apply(e)
+		for _, v := range vals {
+			probe(v)
+		}
+	}
+	// state at the crash point
+	accepted := map[int]bool{}
+	for _, v := range vals {
+		accepted[v] = probe(v)
+	}
+	var rowExists, rowEnabled bool
+	var en int
+	if err := am.GetDB().QueryRow("SELECT enabled FROM api_tokens WHERE id = ?", id).Scan(&en); err == nil {
+		rowExists, rowEnabled = true, en == 1
+	}
+	// restart: close and re-open the manager on the same database file
+	h.replayMgr.am.Close()
+	nam, err := auth.NewAuthManager(h.replayMgr.path, time.Duration(h.replayMgr.ttl), 100, zerolog.Nop())
+	if err != nil {
+		panic(err)
+	}
+	h.replayMgr.am = nam
+	am = nam
+	for k := 0; k < prefix && k < len(log); k++ {
+		apply(log[k])
+		for _, v := range vals {
+			if probe(v) && !accepted[v] {
+				switch {
+				case rowExists && !rowEnabled:
+					h.c.Fail("revoked-token-accepted:replayed-create-resurrects", fmt.Sprintf("after a restart, re-applying log entry #%d (%s) made value %d authenticate although the token was revoked before the restart", k, log[k].kind, v), h.replay())
+				case !rowExists:
+					h.c.Tag("replay-window:deleted-row-reinserted-until-delete-replayed")
+					h.note("deleted-row-reinserted", h.replay())
+				case log[k].kind == "rotate":
+					h.c.Tag("replay-window:intermediate-rotation-value-until-later-rotate-replayed")
+					h.note("intermediate-rotation-value", h.replay())
+				default:
+					h.c.Tag("replay-window:earlier-expiry-until-later-update-replayed")
+					h.note("earlier-expiry", h.replay())
+				}
+			}
+		}
+	}
+	h.c.Tag("replay:history")
+	if _, err := am.GetDB().Exec("DELETE FROM api_tokens"); err != nil {
+		panic(err)
+	}
+	am.InvalidateCache()
+	h.c.Case(h.flush(), true)
+}
+
+func (h *H) note(class, replay string) {
+	if h.notes == nil {
+		h.notes = map[string]string{}
+	}
+	if _, ok := h.notes[class]; !ok {
+		if len(replay) > 700 {
+			replay = replay[:700] + "…"
+		}
+		h.notes[class] = replay
+	}
+}
+
 // ---------------------------------------------------------------- main
 
 func main() {
@@ -929,6 +1234,48 @@ func main() {
 	// corpus: the minimal sequential history for the expiry clause, first (smallest replay)
 	h.corpusExpiry(mBig, false)
 	h.corpusExpiry(mBig, true)
+	h.corpusExpiryUpdate(mBig, false)
+	h.corpusExpiryUpdate(mBig, true)
+
+	// cluster-apply log replay across a restart (persistent SQLite file, manager closed and re-opened)
+	{
+		p := filepath.Join(h.dbdir, "auth-replay.db")
+		am, err := auth.NewAuthManager(p, time.Duration(3600*sec), 100, zerolog.Nop())
+		if err != nil {
+			panic(err)
+		}
+		h.replayMgr = &rmgr{am: am, path: p, ttl: 3600 * sec}
+		// corpus: create, revoke, restart, replayed create (the seeded class), and the same with an expiry
+		h.replayCase([]logEnt{{kind: "create", val: 1}, {kind: "revoke"}}, 0, 2)
+		h.replayCase([]logEnt{{kind: "create", val: 1, exp: 100 * sec}, {kind: "setexp", exp: 5 * sec}, {kind: "revoke"}}, 60*sec, 3)
+		nRep := 120
+		if thorough {
+			nRep = 3000
+		}
+		for i := 0; i < nRep; i++ {
+			lg := []logEnt{{kind: "create", val: 1, leg: r.Chance(15)}}
+			if r.Chance(40) {
+				lg[0].exp = vh.Pick(r, []int64{10 * sec, 100 * sec, 1000 * sec})
+			}
+			nv := 1
+			k := r.Range(1, 5)
+			for j := 0; j < k; j++ {
+				switch vh.Pick(r, []string{"revoke", "revoke", "rotate", "rotate", "setexp", "setexp", "delete"}) {
+				case "revoke":
+					lg = append(lg, logEnt{kind: "revoke"})
+				case "delete":
+					lg = append(lg, logEnt{kind: "delete"})
+				case "rotate":
+					nv++
+					lg = append(lg, logEnt{kind: "rotate", val: nv + 10})
+				case "setexp":
+					lg = append(lg, logEnt{kind: "setexp", exp: vh.Pick(r, []int64{0, 5 * sec, 50 * sec, 500 * sec})})
+				}
+			}
+			h.replayCase(lg, vh.Pick(r, []int64{0, 7 * sec, 60 * sec, 600 * sec}), r.Range(1, len(lg)))
+		}
+		h.replayMgr.am.Close()
+	}
 
 	// (0) the schedule DESIGN.md predicted as a counterexample, attempted literally on the real code in
 	// both modes and for every kind: V.lookup V.dbread | M.dbupdate M.invalidate | V.insert … V'.lookup
@@ -1001,7 +1348,7 @@ func main() {
 		nRand = c.N
 	}
 	for i := 0; i < nRand; i++ {
-		kind := vh.Pick(r, []string{"revoke", "delete", "rotate"})
+		kind := vh.Pick(r, []string{"revoke", "delete", "rotate", "revoke", "delete", "rotate", "setexp"})
 		cluster := r.Bool()
 		if kind == "rotate" && !cluster && !r.Chance(6) {
 			cluster = true // RotateToken's 600k-iteration hash makes the direct path ~0.3 s per schedule
@@ -1031,6 +1378,16 @@ func main() {
 			cs.ticks = []int64{1, sec, cs.expiry - 1, cs.expiry, cs.expiry + 1, cs.m.ttl, cs.m.ttl + 1}
 			tickP = 20
 		}
+		if kind == "setexp" {
+			// expiry-only update on a (mostly) warm cache, then the clock crosses the new expiry
+			cs.warm = r.Chance(75)
+			if !cs.warm {
+				cs.warmTick = 0
+			}
+			cs.newExp = cs.warmTick + vh.Pick(r, []int64{1, 5 * sec, 30 * sec})
+			cs.ticks = append(cs.ticks, 1, sec, 6*sec, 31*sec)
+			tickP = 25
+		}
 		rr := r.Fork()
 		h.forced(cs, nil, rr, tickP)
 	}
@@ -1040,7 +1397,7 @@ func main() {
 	if thorough {
 		nSeq = 5000
 	}
-	acts := []string{"verify", "verify", "verify", "tick", "tick", "janitor", "revoke", "delete", "rotate", "issue"}
+	acts := []string{"verify", "verify", "verify", "verify", "tick", "tick", "tick", "janitor", "revoke", "delete", "rotate", "issue", "setexp", "setexp"}
 	for i := 0; i < nSeq; i++ {
 		m := vh.Pick(r, []*mgr{mBig, mBig, mOne, mZero})
 		k := r.Range(3, 14)
@@ -1063,5 +1420,6 @@ func main() {
 	c.Extra["forced_runs"] = h.runs
 	c.Extra["blocked_probes"] = h.probes
 	c.Extra["retries"] = h.retries
+	c.Extra["replay_windows_observed"] = h.notes
 	c.Finish("cases = forced schedules of n<=3 VerifyToken goroutines x 1 token mutator on the real AuthManager (all interleavings over the injected schedule points by DFS with re-execution; random schedules with mixed values, legacy rows, expiry and clock ticks) plus sequential histories; non-trivial = a verifier stepped inside the mutation or a thread was observed blocked on the pooled connection (forced), every sequential history; distinct = distinct observed trace")
 }
